@@ -13,419 +13,28 @@ SPEC_EXTENT = ("SELECT MIN(f.start), MAX(f.end), f.strand, f.seqid FROM features
                "WHERE r.parent = :id AND f.featuretype = :sub")
 
 
-def gtf_cls(ctx):
-    return ctx.proj.cls("create._GTFDBCreator")
 
 
-def gtf_method(ctx, name):
-    c = gtf_cls(ctx)
-    f = c.methods.get(name)
-    ctx.require(f is not None, "anchor vanished: _GTFDBCreator.%s" % name)
-    ctx.touch(f)
-    return f
 
 
-def resolve_expr(expr, at_node, func, cfg, depth=0):
-    """Substitute local names by their reaching definition (the last plain
-    assignment in source order that dominates `at_node`), recursively."""
-    if depth > 6:
-        return expr
-
-    class T(ast.NodeTransformer):
-        def visit_Name(self, n):
-            if not isinstance(n.ctx, ast.Load) or n.id == "self":
-                return n
-            tn = cfg.node_for(at_node)
-            if tn is None:
-                return n
-            asg = [a for a in assignments_to(func.node, n.id) if cfg.node_for(a) is not None]
-            ids = {cfg.node_for(a).id for a in asg}
-            reaching = []
-            for a in asg:
-                an = cfg.node_for(a).id
-                if an == tn.id:
-                    continue
-                if tn.id in cfg.reachable(an, avoid=ids - {an, tn.id}):
-                    reaching.append(a)
-            plain = [a for a in reaching if isinstance(a, ast.Assign) and len(a.targets) == 1 and is_name(a.targets[0], n.id)]
-            if len(plain) != len(reaching):
-                return n
-            nonnull = [a for a in plain if not (isinstance(a.value, ast.Constant) and a.value.value is None)]
-            if len(plain) > 1 and len(nonnull) == 1:
-                # a None initialiser is excluded when the use is guarded by `name is not None`
-                guarded = False
-                for p in parents(at_node):
-                    if isinstance(p, ast.If) and norm(p.test) in ("%s is not None" % n.id, n.id):
-                        guarded = True
-                if not guarded:
-                    return n
-                plain = nonnull
-            if len(plain) != 1 or (isinstance(plain[0].value, ast.Constant) and plain[0].value.value is None):
-                return n
-            best = plain[0]
-            return resolve_expr(best.value, best, func, cfg, depth + 1)
-    import copy
-    return T().visit(copy.deepcopy(expr))
 
 
-def r1_r6(ctx, sch):
-    f = gtf_method(ctx, "_populate_from_lines")
-    loop, fv = feature_loop(ctx, f)
-    cfg = cfg_of(f)
-    sites = [s for s in execute_sites(ctx, [f]) if s.stmts and s.stmts[0].verb == "INSERT" and s.stmts[0].table.lower() == "relations"]
-    ctx.floor("R1", len(sites), 1, "relation INSERT sites in the GTF importer")
-    s = sites[0]
-    st = s.stmts[0]
-    cols = insert_columns(st, sch)
-    ok = cols[:3] == ["parent", "child", "level"] and len(st.values) == 3 and all(v[0] == "param" for v in st.values)
-    ctx.ob("R1", ok, "relation rows are (parent, child, level) triples", node=s.call, func=f, sig="GTF relation insert columns %s" % cols)
-    ctx.ob("R1", st.or_clause == "ignore", "relation rows are inserted OR IGNORE (the gene-transcript link recurs on every line)", node=s.call, func=f,
-           sig="GTF relation insert conflict clause: %s" % (st.or_clause or "none"))
-    lst = s.params.id if isinstance(s.params, ast.Name) else None
-    ctx.require(lst, "GTF relation insert is not fed from a local list")
-    apps = [c for c in calls_in(f.node) if call_attr(c) == "append" and is_name(c.func.value, lst) and loop in list(parents(c))]
-    ctx.floor("R1", len(apps), 3, "relation tuples appended per GTF line")
-    T = "%s.attributes[self.transcript_key][0]" % fv
-    G = "%s.attributes[self.gene_key][0]" % fv
-    me = "%s.id" % fv
-    expected = {(T, me, "1"): "line -> transcript, level 1", (G, me, "2"): "line -> gene, level 2", (G, T, "1"): "transcript -> gene, level 1"}
-    got = {}
-    for a in apps:
-        tup = a.args[0] if a.args else None
-        if not isinstance(tup, ast.Tuple) or len(tup.elts) != 3:
-            ctx.ob("R1", False, "each appended relation is a (parent, child, level) tuple", node=a, func=f, sig="appended %s" % norm(a))
-            continue
-        res = tuple(norm(resolve_expr(e, a, f, cfg)) for e in tup.elts)
-        got[res] = a
-    for k, what in expected.items():
-        ctx.ob("R1", k in got, "every line adds the relation %s" % what, node=got.get(k, loop), func=f,
-               sig="relation %s" % what if k in got else "missing relation (%s); appended: %s" % (what, sorted(got)))
-    for k, a in got.items():
-        if k not in expected:
-            ctx.ob("R1", False, "only the three documented relations are added per line", node=a, func=f, sig="unexpected relation tuple %s" % (k,))
-    reset = [n for n in assignments_to(f.node, lst) if isinstance(n, ast.Assign) and isinstance(n.value, ast.List) and not n.value.elts
-             and loop in list(parents(n))]
-    ctx.ob("R1", bool(reset), "the relation list is rebuilt for every line", func=f, sig="relations list reset per line" if reset else "relations list not reset inside the loop")
-    # id assigned before
-    idasg = [n for n in ast.walk(loop) if isinstance(n, ast.Assign) and any(norm(t) == me for t in n.targets)]
-    ctx.floor("R1", len(idasg), 1, "assignments of the feature id in the GTF importer loop")
-    dom = all(cfg.dominates(cfg.node_for(idasg[0]).id, cfg.node_for(a).id) for a in apps)
-    ctx.ob("R1", dom, "the id is assigned before the relations of the line are built", func=f,
-           sig="id assignment dominates the relation tuples" if dom else "relation tuples not dominated by the id assignment")
-    # ------------------------------------------------------------------ R6
-    upd = gtf_method(ctx, "_update_relations")
-    sweep = False
-    for x in execute_sites(ctx, [f, upd]):
-        for st2 in (x.stmts or []):
-            if st2.verb == "DELETE" and st2.table.lower() == "relations" and st2.where is not None:
-                w = st2.where
-                if w[0] == "cmp" and w[1] == "=" and {w[2][0], w[3][0]} == {"col"} and {w[2][2].lower(), w[3][2].lower()} == {"parent", "child"}:
-                    sweep = True
-    for k, a in got.items():
-        if k[1] != me or k not in expected:
-            continue
-        parent_e = a.args[0].elts[0]
-        guarded = False
-        for p in parents(a):
-            if p is loop:
-                break
-            if isinstance(p, ast.If):
-                for n in ast.walk(p.test):
-                    if isinstance(n, ast.Compare) and len(n.ops) == 1 and isinstance(n.ops[0], (ast.NotEq,)):
-                        sides = {norm(resolve_expr(n.left, a, f, cfg)), norm(resolve_expr(n.comparators[0], a, f, cfg))}
-                        if sides == {k[0], me}:
-                            guarded = True
-        what = "transcript" if k[0] == T else "gene"
-        ctx.ob("R6", guarded or sweep,
-               "an explicit %s line (whose own id is the value of its %s_id attribute) is never made its own parent/child: the tuple "
-               "(%s, f.id, %s) needs a guard parent != f.id, or self-relations are swept before the import returns" % (what, what, norm(parent_e), k[2]),
-               node=a, func=f,
-               sig="self-relation possible: (%s value, f.id, %s) appended without comparing it with f.id" % (what + "_key", k[2])
-               if not (guarded or sweep) else "self-relation excluded for the %s link" % what,
-               detail=None if (guarded or sweep) else "a `%s` line with %s_id X gets id X (default id_spec) and the row (X, X, %s)" % (what, what, k[2]))
 
 
-def _ev3(test, env, leaf):
-    """Three-valued evaluation of a guard: True / False / None (depends on something else)."""
-    if isinstance(test, ast.BoolOp):
-        vals = [_ev3(v, env, leaf) for v in test.values]
-        if isinstance(test.op, ast.And):
-            return False if False in vals else (None if None in vals else True)
-        return True if True in vals else (None if None in vals else False)
-    if isinstance(test, ast.UnaryOp) and isinstance(test.op, ast.Not):
-        v = _ev3(test.operand, env, leaf)
-        return None if v is None else not v
-    return leaf(test, env)
 
 
-def _reachable_under(conds, env, leaf):
-    return all(_ev3(t, env, leaf) in (pol, None) for t, pol in conds)
 
 
-def r2(ctx, sch):
-    """Derived transcripts/genes: decided on the provenance of every field of the record written for them (which column of
-    which query reaches which field), on the queries' conjunctive normal forms, and on the writer's path conditions."""
-    from ..flow import Flow, show
-    from ..util import closure
-    from .c02 import _find
-    f = gtf_method(ctx, "_update_relations")
-    pool = closure(ctx, f)
-    fl = Flow(ctx, pool)
-    sites = execute_sites(ctx, pool)
-    by_key = {(s.func.qual, s.call.lineno, s.call.col_offset): s for s in sites}
-    sels = [s for s in sites if s.stmts and s.stmts[0].verb == "SELECT"]
-    pair = [s for s in sels if s.stmts[0].tables().count("relations") >= 2]
-    is_ext = lambda s: any(e[0] == "call" and e[1] in ("min", "max") for e, _a in s.stmts[0].cols)
-    ctx.floor("R2", len(pair), 1, "transcript/gene pair queries")
-    # ---- pair query
-    s = pair[0]
-    spec = S.to_cq(S.parse(SPEC_PAIR), sch)
-    SUB = ("attr", ("self",), "subfeature")
-    pt = fl.terms(s.params, s.func) if s.params is not None else set()
-    ok_p = pt == {("op", "tuple", SUB)} or pt == {("op", "list", SUB)}
-    ctx.ob("R2", ok_p, "the pair query is restricted to the configured subfeature type", node=s.call, func=s.func,
-           sig="pair query bound to %s" % ", ".join(sorted(show(t) for t in pt)))
-    try:
-        got = S.to_cq(s.stmts[0], sch, {0: "sub"})
-        eq = S.cq_equivalent(got, spec)
-        ctx.ob("R2", eq, "pairs = transcripts that own a subfeature at level 1, each with its level-1 parent (the gene)", node=s.call, func=s.func,
-               sig="pair query ≅ specification" if eq else "pair query differs: " + got.describe(),
-               detail=None if eq else "expected " + spec.describe())
-        by_gene = bool(got.order) and len(got.proj) == 2 and _canon(got, got.order[0][0]) == _canon(got, got.proj[1])
-        ctx.ob("R2", by_gene, "pairs are ordered by gene, so 'one derived gene per gene id' can be decided on consecutive rows", node=s.call, func=s.func,
-               sig="pair query ordered by the gene column" if by_gene else "pair query not ordered by the gene column")
-    except S.SQLError as e:
-        ctx.ob("R2", False, "pair query normalises", node=s.call, func=s.func, sig="pair query: %s" % e)
-    PAIR = ("row", (s.func.qual, s.call.lineno, s.call.col_offset))
-    IDS = {"transcript": ("pos", PAIR, 0), "gene": ("pos", PAIR, 1)}
-    # ---- the reader's field names
-    keys = None
-    rsep = None
-    for g in pool:
-        for c in calls_in(g.node):
-            if is_name(c.func, "zip") and len(c.args) == 2:
-                kt = fl.terms(c.args[0], g)
-                vt = fl.terms(c.args[1], g)
-                for k in kt:
-                    if k[0] == "op" and k[1] in ("list", "tuple") and len(k) >= 8 and all(x[0] == "const" and isinstance(x[1], str) for x in k[2:]):
-                        sp = [_find(v, lambda x: isinstance(x, tuple) and x[0] == "call" and x[1] == "split") for v in vt]
-                        if sp and sp[0] is not None:
-                            keys = [x[1] for x in k[2:]]
-                            rsep = sp[0][3][0][1] if sp[0][3] and sp[0][3][0][0] == "const" else None
-                            ctx.touch(g)
-    ctx.require(keys is not None, "reader of the derived-feature file (zip of field names with the split line) not found")
-    # ---- the writer: records and their fields
-    records = []
-    for g in pool:
-        for w in calls_in(g.node):
-            if call_attr(w) != "write" or not w.args:
-                continue
-            for t in fl.terms(w.args[0], g):
-                j = _find(t, lambda x: isinstance(x, tuple) and x[0] == "call" and x[1] == "join" and x[2] is not None and x[2][0] == "const" and len(x[3]) == 1)
-                if j is None:
-                    continue
-                lst = j[3][0]
-                if lst[0] == "call" and lst[1] == "map" and len(lst[3]) == 2 and lst[3][0] == ("global", "str"):
-                    lst = lst[3][1]
-                for one in (lst[1:] if lst[0] == "alt" else (lst,)):
-                    if one[0] == "op" and one[1] in ("list", "tuple") and len(one) - 2 >= 6:
-                        records.append((g, w, list(one[2:]), j[2][1]))
-    ctx.floor("R2", len(records), 2, "records written for derived features")
-    ext_sites = {}
-    roles_seen = {}
-    for g, w, fields, sep in records:
-        ok = len(fields) == len(keys)
-        ctx.ob("R2", ok, "writer and reader of the derived-feature file agree on the number of fields", node=w, func=g,
-               sig="record: %d fields written, %d read" % (len(fields), len(keys)))
-        ctx.ob("R2", sep == rsep, "writer and reader agree on the field separator", node=w, func=g, sig="record separator %r / %r" % (sep, rsep), nontrivial=False)
-        if not ok:
-            continue
-        rec = dict(zip(keys, fields))
-        ft = rec.get("featuretype")
-        role = ft[1] if ft is not None and ft[0] == "const" and ft[1] in IDS else None
-        ctx.ob("R2", role is not None, "a derived feature is typed 'transcript' or 'gene'", node=w, func=g, sig="derived featuretype := %s" % (show(ft) if ft else None))
-        if role is None:
-            continue
-        roles_seen[role] = (g, w)
-        idt = IDS[role]
-        first = rec.get(keys[0])
-        ctx.ob("R2", first == idt, "the record's first field is the %s id of the pair row" % role, node=w, func=g, sig="%s record id field := %s" % (role, show(first)), nontrivial=False)
-        want = {"start": "min(start)", "end": "max(end)", "strand": "strand", "seqid": "seqid"}
-        rows = set()
-        for k, col in want.items():
-            t = rec.get(k)
-            got_col = None
-            if t is not None and t[0] == "pos" and t[1][0] == "row" and t[1][1] in by_key and isinstance(t[2], int):
-                es = by_key[t[1][1]]
-                rows.add(t[1][1])
-                cols_ = es.stmts[0].cols if es.stmts and es.stmts[0].verb == "SELECT" else []
-                if 0 <= t[2] < len(cols_):
-                    e_ = cols_[t[2]][0]
-                    if e_[0] == "call" and e_[2] and e_[2][0][0] == "col":
-                        got_col = "%s(%s)" % (e_[1], e_[2][0][2].lower())
-                    elif e_[0] == "col":
-                        got_col = e_[2].lower()
-                    else:
-                        got_col = S.show(e_)
-            ctx.ob("R2", got_col == col, "field `%s` of the derived %s is %s of its subfeatures" % (k, role, col.upper()), node=w, func=g,
-                   sig="%s.%s := %s" % (role, k, got_col if got_col else show(t) if t else None))
-        ctx.ob("R2", len(rows) == 1, "start, end, strand and seqid of a derived %s come from one extent row" % role, node=w, func=g,
-               sig="%s extent fields from %d queries" % (role, len(rows)), nontrivial=False)
-        for rk in rows:
-            ext_sites[rk] = (role, idt)
-        bt = rec.get("bin")
-        okb = bt is not None and bt[0] == "call" and bt[1] == "bins.bins" and len(bt[3]) >= 2 and bt[3][0] == rec.get("start") and bt[3][1] == rec.get("end") and \
-            ("op", "kw", ("const", "one"), ("const", True)) in bt[3]
-        ctx.ob("R2", okb, "the derived %s is binned by its own extent (smallest containing bin)" % role, node=w, func=g, sig="%s.bin := %s" % (role, show(bt) if bt else None), nontrivial=False)
-        at = rec.get("attributes")
-        key_attr = ("attr", ("self",), "transcript_key" if role == "transcript" else "gene_key")
-        okj = at is not None and at[0] == "call" and at[1] == "helpers._jsonify"
-        ctx.ob("R2", okj, "attributes travel as JSON", node=w, func=g, sig="%s.attributes := %s" % (role, show(at)[:60] if at else None), nontrivial=False)
-        kv = _find(at, lambda x: isinstance(x, tuple) and x[:2] == ("op", "kv") and x[2] == key_attr) if at else None
-        okk = kv is not None and kv[3] == ("op", "list", idt)
-        ctx.ob("R2", okk, "the derived %s carries its id under the configured key, hence is retrievable by that id" % role, node=w, func=g,
-               sig="%s attributes[%s] := %s" % (role, key_attr[2], show(kv[3]) if kv else None))
-    for role in ("transcript", "gene"):
-        ctx.ob("R2", role in roles_seen, "there is a record for inferred %ss" % role, func=f,
-               sig="%s record present" % role if role in roles_seen else "%s record missing" % role, nontrivial=False)
-    # ---- extent queries
-    have_agg = [s_ for s_ in sels if is_ext(s_)]
-    ctx.ob("R2", bool(have_agg),
-           "the extent of a derived transcript/gene is the minimum start and the maximum end over its subfeature children (MIN/MAX aggregates)", func=f,
-           sig="extents computed with MIN(start)/MAX(end)" if have_agg else "derived extents are not computed as MIN(start) .. MAX(end)",
-           detail=None if have_agg else "e.g. 'first row's start, last row's end under ORDER BY start, end' is wrong for nested or overlapping exons")
-    spec_e = S.to_cq(S.parse(SPEC_EXTENT), sch)
-    for rk, (role, idt) in sorted(ext_sites.items()):
-        es = by_key[rk]
-        if not (es.stmts and es.stmts[0].verb == "SELECT"):
-            continue
-        # bound to (the id of the pair row -- per calling context -- , the subfeature type)
-        pts = fl.terms(es.params, es.func) if es.params is not None else set()
-        okb = bool(pts) and all(t[0] == "op" and t[1] in ("tuple", "list") and len(t) == 4 and t[2] in IDS.values() and t[3] == SUB for t in pts) and \
-            any(t[2] == idt for t in pts if len(t) == 4)
-        ctx.ob("R2", okb, "an extent query is bound to (the transcript or gene id, the subfeature type)", node=es.call, func=es.func,
-               sig="%s extent query bound to %s" % (role, " | ".join(sorted(show(t) for t in pts))))
-        try:
-            got = S.to_cq(es.stmts[0], sch, {0: "id", 1: "sub"})
-        except S.SQLError as e:
-            ctx.ob("R2", False, "extent query normalises", node=es.call, func=es.func, sig="%s extent query: %s" % (role, e))
-            continue
-        same_body = S.cq_equivalent(_with_proj(got, []), _with_proj(spec_e, []))
-        agg = sorted((t[1], _strip_alias(t[2])) for t in got.proj if t[0] == "agg")
-        ok_agg = agg == [("max", "end"), ("min", "start")]
-        ctx.ob("R2", ok_agg, "%s extent = MIN(start) .. MAX(end) over the subfeature children" % role, node=es.call, func=es.func,
-               sig="%s extent aggregates %s" % (role, ["%s(%s)" % a for a in agg]))
-        ctx.ob("R2", same_body, "%s extent ranges over features F joined to relations R on F.id = R.child with R.parent = id and "
-               "F.featuretype = subfeature" % role, node=es.call, func=es.func,
-               sig="%s extent query ≅ specification" % role if same_body else "%s extent query differs: %s" % (role, got.describe()))
-    ctx.extra["derived_records"] = {r: [show(x) for x in rec_] for r, rec_ in ((ro, fi) for _g, _w, fi, _s in records for ro in [""])} if False else len(records)
-    return fl, pool, records, keys
 
 
-def _strip_alias(t):
-    return t[2] if isinstance(t, tuple) and t[0] == "col" else t
 
 
-def _canon(cq, t):
-    cls, _ = cq.classes()
-    for c in cls:
-        if t in c:
-            return min(c, key=repr)
-    return t
 
 
-def _with_proj(cq, proj):
-    import copy
-    c = copy.copy(cq)
-    c.proj = list(proj)
-    return c
 
 
-def r3(ctx, r2res):
-    """The derived transcript (gene) is written exactly when disable_infer_transcripts (disable_infer_genes) is off; with
-    both flags set no statement is executed at all.  Decided on the CFG path conditions of the writes, evaluated
-    three-valued over the four flag valuations (other guards are free)."""
-    fl, pool, records, keys = r2res
-    f = gtf_method(ctx, "_update_relations")
-    FLAGS = {("attr", ("self",), "disable_infer_transcripts"): "dt", ("attr", ("self",), "disable_infer_genes"): "dg"}
-
-    def evterm(t, env):
-        if t in FLAGS:
-            return env[FLAGS[t]]
-        if t[0] == "op" and t[1] == "Not":
-            v = evterm(t[2], env)
-            return None if v is None else not v
-        if t[0] == "const":
-            return bool(t[1])
-        return None
-
-    def leaf_in(func):
-        def leaf(test, env):
-            vals = {evterm(t, env) for t in fl.terms(test, func)}
-            return vals.pop() if len(vals) == 1 else None
-        return leaf
-
-    def chain(g, node, depth=0):
-        """[(func, conds)] alternatives from f down to node."""
-        cfg = cfg_of(g)
-        cn = cfg.node_for(node)
-        here = [(g, cfg.conditions(cn.id) if cn is not None else [])]
-        if g is f or depth > 4:
-            return [here]
-        outs = []
-        for caller, call in fl.callers(g):
-            for up in chain(caller, call, depth + 1):
-                outs.append(up + here)
-        return outs or [here]
-
-    def reachable(g, node, env):
-        return any(all(_reachable_under(conds, env, leaf_in(h)) for h, conds in alt) for alt in chain(g, node))
-    idx = keys.index("featuretype") if "featuretype" in keys else None
-    ctx.require(idx is not None, "reader has no featuretype field")
-    import itertools
-    for g, w, fields, _sep in records:
-        ft = fields[idx] if idx < len(fields) else None
-        if not (ft and ft[0] == "const" and ft[1] in ("transcript", "gene")):
-            continue
-        role = ft[1]
-        flag = "dt" if role == "transcript" else "dg"
-        bad = None
-        for dt, dg in itertools.product((False, True), repeat=2):
-            env = {"dt": dt, "dg": dg}
-            if reachable(g, w, env) != (not env[flag]):
-                bad = env
-                break
-        ctx.ob("R3", bad is None, "the derived %s is written exactly when %s is off" % (role, "disable_infer_" + role + "s"), node=w, func=g,
-               sig="derived %s written iff not disable_infer_%ss" % (role, role) if bad is None else
-               "derived %s: wrong under disable_infer_transcripts=%s, disable_infer_genes=%s" % (role, bad["dt"], bad["dg"]))
-    # both flags: nothing runs
-    both = {"dt": True, "dg": True}
-    ran = []
-    for x in execute_sites(ctx, [f]):
-        if reachable(f, x.call, both):
-            ran.append(x.call.lineno)
-    for c in calls_in(f.node):
-        if call_attr(c) == "write" and reachable(f, c, both):
-            ran.append(c.lineno)
-    ctx.ob("R3", not ran, "with both flags set nothing is inferred (no statement is executed, nothing is written)", func=f,
-           sig="both flags -> nothing executed" if not ran else "statements still run under both flags (%d sites)" % len(ran))
 
 
-def r4(ctx):
-    f = gtf_method(ctx, "_update_relations")
-    hs = []
-    for h in [n for n in ast.walk(f.node) if isinstance(n, ast.ExceptHandler) and n.type is not None and "IntegrityError" in norm(n.type)]:
-        hs.append(h)
-    ctx.floor("R4", len(hs), 1, "collision handlers around the derived-feature insert")
-    for h in hs:
-        calls = [c for c in ast.walk(h) if isinstance(c, ast.Call) and call_attr(c) == "_do_merge"]
-        ok = bool(calls) and all(len(c.args) >= 2 and const_str(c.args[1]) == "merge" or const_str(kwarg(c, "merge_strategy") or ast.Constant(value=None)) == "merge" for c in calls)
-        ctx.ob("R4", ok, "a derived feature colliding with a stored id is resolved with the strategy 'merge'", node=h, func=f,
-               sig="derived collision strategy %s" % ([norm(c.args[1]) for c in calls if len(c.args) >= 2] or None))
-        upd = [s for s in execute_sites(ctx, [f]) if h in list(parents(s.call)) and s.stmts and s.stmts[0].verb == "UPDATE"]
-        ok = bool(upd) and all(isinstance(s.stmts[0].sets, list) and [c_.lower() for c_, _ in s.stmts[0].sets] == ["attributes"] for s in upd)
-        ctx.ob("R4", ok, "the merged attributes are written back to the stored row", node=h, func=f,
-               sig="derived collision writes %s" % ([[c_ for c_, _ in s.stmts[0].sets] if isinstance(s.stmts[0].sets, list) else s.stmts[0].sets for s in upd] or None), nontrivial=False)
 
 
 def r5_format_routing(ctx, rule="R5"):
